@@ -144,8 +144,14 @@ def check(P, R):
         if n.kind != 'test':
             continue
         t, neg = strip_not(n.ast)
-        if isinstance(t, ast.Call) and call_attr(t) == 'startswith' and isinstance(t.func.value, ast.Name) and len(t.args) == 1:
-            guards.append((n, t, 'false' if neg else 'true'))   # pass label
+        if isinstance(t, ast.Call) and call_attr(t) == 'startswith' and len(t.args) == 1:
+            if isinstance(t.func.value, ast.Name) and isinstance(t.args[0], ast.Name):
+                guards.append((n, t, 'false' if neg else 'true'))   # pass label
+            else:
+                R.ob('C16.c', f, n.ast, False, text=f'prefix test {short(t)}', detail=
+                     f'the containment test compares transformed strings (`{short(t.func.value)}` against `{short(t.args[0])}`) instead of the normalised path and root '
+                     f'themselves: e.g. case folding lets a sibling or ancestor that differs only in letter case pass on a case-sensitive file system',
+                     why='the file opened must lie inside the root as the file system sees it', key_extra='transformed')
     R.require(guards, 'static_file has no `name.startswith(root)` test')
     sinks = [c for fn, c in sinks_all if fn is f]
     name_var = None
